@@ -281,24 +281,26 @@ example : defectPattern [2, 1] [[(0, 1)], [(0, 0)]] = false := by decide
 /-! ### Spawned threads -/
 
 /-- **Arguments travel by value**: let a call be spawned in any state `s` with argument
-    variables `argVars` (the new thread is number `s.threads.length`).  Whatever happens
+    expressions `args` — variables, literals, nested calls with or without side effects, to
+    any depth (the new thread is number `s.threads.length`).  Whatever happens
     afterwards — the spawner reassigns its variables, overwrites the slice it passed, writes
     shared variables, spawns, runs or waits for other threads, in any order and number — the
-    arguments the spawned call reads are the values the variables had at the spawn site. -/
-theorem spawn_args_by_value (s s1 : TState) (argVars : List Nat) (body : Body) (ob : TObs)
-    (hsp : tstep s (.spawn argVars body) = some (s1, ob)) (rest : List TOp) (s2 : TState)
+    arguments the spawned call reads are the values the expressions had at the spawn site,
+    evaluated left to right by the spawner. -/
+theorem spawn_args_by_value (s s1 : TState) (args : List Arg) (body : Body) (ob : TObs)
+    (hsp : tstep s (.spawn args body) = some (s1, ob)) (rest : List TOp) (s2 : TState)
     (hrun : trun s1 rest = some s2) :
-    threadArgs s2 s.threads.length = some (argVals s.vars argVars) := by
+    threadArgs s2 s.threads.length = some (evalArgs s.vars args).1 := by
   -- right after the spawn
-  have h1 : ∃ th, s1.threads[s.threads.length]? = some th ∧ s1.heap[th.slice]? = some (argVals s.vars argVars, false) := by
+  have h1 : ∃ th, s1.threads[s.threads.length]? = some th ∧ s1.heap[th.slice]? = some ((evalArgs s.vars args).1, false) := by
     simp only [tstep, tstepWith, ↓reduceIte, Option.some.injEq, Prod.mk.injEq] at hsp
     rw [← hsp.1]
     refine ⟨{ slice := s.heap.length + 1, body := body }, by simp, ?_⟩
     simp
   -- preserved by every later step
   have key : ∀ (rest : List TOp) (a b : TState), trun a rest = some b →
-      (∃ th, a.threads[s.threads.length]? = some th ∧ a.heap[th.slice]? = some (argVals s.vars argVars, false)) →
-      (∃ th, b.threads[s.threads.length]? = some th ∧ b.heap[th.slice]? = some (argVals s.vars argVars, false)) := by
+      (∃ th, a.threads[s.threads.length]? = some th ∧ a.heap[th.slice]? = some ((evalArgs s.vars args).1, false)) →
+      (∃ th, b.threads[s.threads.length]? = some th ∧ b.heap[th.slice]? = some ((evalArgs s.vars args).1, false)) := by
     intro rest
     induction rest with
     | nil => intro a b h hi; simp only [trun, Option.some.injEq] at h; subst h; exact hi
@@ -316,14 +318,70 @@ theorem spawn_args_by_value (s s1 : TState) (argVars : List Nat) (body : Body) (
   obtain ⟨th, hth, hheap⟩ := key rest s1 s2 hrun h1
   simp [threadArgs, hth, hheap]
 
+/-- plain variables as arguments (the special case the earlier statement was about): the
+    values are the variables' values and evaluating them changes nothing -/
+theorem evalArgs_vars (vars : List Int) (argVars : List Nat) :
+    evalArgs vars (argVars.map .var) = (argVals vars argVars, vars) := by
+  induction argVars with
+  | nil => rfl
+  | cons i is ih => simp only [List.map_cons, evalArgs, evalArg, ih, argVals]
+
+/-- **every argument position** receives exactly one value: the spawned call gets as many
+    arguments as the spawn site has expressions, whatever their shape -/
+theorem evalArgs_length (vars : List Int) (args : List Arg) :
+    (evalArgs vars args).1.length = args.length := by
+  induction args generalizing vars with
+  | nil => rfl
+  | cons a as ih => simp only [evalArgs, List.length_cons, ih]
+
+/-- evaluating argument expressions never changes how many variables the spawner has -/
+theorem evalArg_vars_length (vars : List Int) (a : Arg) : (evalArg vars a).2.length = vars.length := by
+  induction a with
+  | var i => rfl
+  | lit k => rfl
+  | tick i => simp only [evalArg, List.length_set]
+  | dbl a ih => simpa only [evalArg] using ih
+
+/-- **Nested calls run at the spawn site, once**: the spawn statement itself — before and
+    whether or not the spawned call ever runs — leaves the spawner's variables exactly as
+    the left-to-right evaluation of the argument expressions leaves them (every side effect
+    of a nested call has taken place), and that is what the spawner observes next. -/
+theorem spawn_evaluates_at_site (s s1 : TState) (args : List Arg) (body : Body) (ob : TObs)
+    (hsp : tstep s (.spawn args body) = some (s1, ob)) :
+    s1.vars = (evalArgs s.vars args).2 ∧ s1.shared = s.shared ∧
+    ob = .spawned s.threads.length s.heap.length (evalArgs s.vars args).2 := by
+  simp only [tstep, tstepWith, ↓reduceIte, Option.some.injEq, Prod.mk.injEq] at hsp
+  rw [← hsp.1, ← hsp.2]
+  exact ⟨rfl, rfl, rfl⟩
+
+/-- … and **not again later**: a spawned call running, or somebody waiting for it, never
+    touches the spawner's variables (the nested calls are not re-evaluated in the thread). -/
+theorem run_wait_keep_vars (s s' : TState) (ob : TObs) (t : Nat)
+    (h : tstep s (.runT t) = some (s', ob) ∨ tstep s (.wait t) = some (s', ob)) : s'.vars = s.vars := by
+  cases h with
+  | inl h =>
+    simp only [tstep, tstepWith] at h
+    split at h
+    · split at h
+      · simp only [Option.some.injEq, Prod.mk.injEq] at h; rw [← h.1]
+      · cases h
+    · cases h
+  | inr h =>
+    simp only [tstep, tstepWith] at h
+    split at h
+    · split at h
+      · simp only [Option.some.injEq, Prod.mk.injEq] at h; rw [← h.1]
+      · cases h
+    · cases h
+
 /-- … in particular the outcome of the call, when it runs, is its body applied to the
     spawn-site values (followed by the shared variables as they are when it runs) -/
-theorem spawned_call_outcome (s s1 : TState) (argVars : List Nat) (body : Body) (ob : TObs)
-    (hsp : tstep s (.spawn argVars body) = some (s1, ob)) (rest : List TOp) (s2 s3 : TState)
+theorem spawned_call_outcome (s s1 : TState) (args : List Arg) (body : Body) (ob : TObs)
+    (hsp : tstep s (.spawn args body) = some (s1, ob)) (rest : List TOp) (s2 s3 : TState)
     (hrun : trun s1 rest = some s2) (r : Outcome)
     (hr : tstep s2 (.runT s.threads.length) = some (s3, .ran r)) :
-    ∃ th, s2.threads[s.threads.length]? = some th ∧ r = th.body.eval (argVals s.vars argVars ++ s2.shared) := by
-  have ha := spawn_args_by_value s s1 argVars body ob hsp rest s2 hrun
+    ∃ th, s2.threads[s.threads.length]? = some th ∧ r = th.body.eval ((evalArgs s.vars args).1 ++ s2.shared) := by
+  have ha := spawn_args_by_value s s1 args body ob hsp rest s2 hrun
   simp only [tstep, tstepWith] at hr
   split at hr
   · rename_i th hth
@@ -340,15 +398,16 @@ theorem spawned_call_outcome (s s1 : TState) (argVars : List Nat) (body : Body) 
 
 /-- without the copy in `object.Spawn` the statement is false: the spawner overwriting its
     slice changes what the call reads (this is why the copy is part of the model) -/
-example : (ttrace (tstepWith false) { vars := [5] } [.spawn [0] .echo, .poke 0 0 9, .runT 0]).getLast?
+example : (ttrace (tstepWith false) { vars := [5] } [.spawn [.var 0] .echo, .poke 0 0 9, .runT 0]).getLast?
     = some (some (.ran (.ret [9]))) := by decide
 
-example : (ttrace tstep { vars := [5] } [.spawn [0] .echo, .assign 0 7, .poke 0 0 9, .runT 0, .wait 0]).getLast?
+example : (ttrace tstep { vars := [5] } [.spawn [.var 0] .echo, .assign 0 7, .poke 0 0 9, .runT 0, .wait 0]).getLast?
     = some (some (.waited (.ret [5]))) := by decide
 
 /-- **wait() returns exactly the spawned call's result or error**: after any history from
-    a state without threads, if `wait t` returns `r` then the call of thread `t` returned `r`
-    (value or error), and it is the only outcome that call ever had — so every `wait` on
+    a state without threads, if `wait t` returns `r` then the call of thread `t` ended with `r`
+    (a value, a raised error, or the error of a Go panic inside the call — `Outcome` has no
+    "nothing" case), and it is the only outcome that call ever had — so every `wait` on
     the same thread returns the same `r`. -/
 theorem wait_returns_result (vars shared : List Int) (ops : List TOp) (s s' : TState)
     (h : trun { vars := vars, shared := shared } ops = some s) (t : Nat) (r : Outcome)
@@ -378,8 +437,32 @@ theorem wait_blocks_until_done (s : TState) (t : Nat) (th : Thread) (ht : s.thre
 
 /-- non-vacuity: a history with a reassignment between spawn and run, an error outcome and two waits -/
 example : ttrace tstep { vars := [1, 2], shared := [7] }
-    [.spawn [0, 1] .fail, .assign 0 9, .setShared 0 8, .wait 0, .runT 0, .wait 0, .wait 0]
-    = [some (.spawned 0 0), some .unit, some .unit, none, some (.ran (.err [1, 2, 8])),
+    [.spawn [.var 0, .var 1] .fail, .assign 0 9, .setShared 0 8, .wait 0, .runT 0, .wait 0, .wait 0]
+    = [some (.spawned 0 0 [1, 2]), some .unit, some .unit, none, some (.ran (.err [1, 2, 8])),
        some (.waited (.err [1, 2, 8])), some (.waited (.err [1, 2, 8]))] := by decide
+
+/-- non-vacuity: nested calls in the argument list (`go f(tick0(), dbl(v0), v0)`) are evaluated
+    left to right at the spawn site — the spawner sees `v0 = 6` at once —, a later reassignment
+    does not reach the call, and a call that panics hands its error to every `wait` -/
+example : ttrace tstep { vars := [5] }
+    [.spawn [.tick 0, .dbl (.var 0), .var 0] .panic, .assign 0 0, .runT 0, .wait 0, .wait 0]
+    = [some (.spawned 0 0 [6]), some .unit, some (.ran (.panicked [6, 12, 6])),
+       some (.waited (.panicked [6, 12, 6])), some (.waited (.panicked [6, 12, 6]))] := by decide
+
+/-- **a call that ended — returned, raised, or panicked — can be waited for**: right after
+    thread `t`'s call ended with `r`, `wait t` is enabled, changes nothing and returns `r` -/
+theorem wait_after_run (s s1 : TState) (t : Nat) (r : Outcome)
+    (hr : tstep s (.runT t) = some (s1, .ran r)) : tstep s1 (.wait t) = some (s1, .waited r) := by
+  simp only [tstep, tstepWith] at hr
+  split at hr
+  · rename_i th hth
+    split at hr
+    · simp only [Option.some.injEq, Prod.mk.injEq, TObs.ran.injEq] at hr
+      obtain ⟨hs, hr⟩ := hr
+      have hlt : t < s.threads.length := (List.getElem?_eq_some_iff.1 hth).1
+      subst hs
+      simp only [tstep, tstepWith, List.getElem?_set_self hlt, hr]
+    · cases hr
+  · cases hr
 
 end Risor.C10
